@@ -134,7 +134,22 @@ class Normalizer:
                     callee, args = self.ret_info[k]
                     return self.call_atom(callee, args) + name[len(k):]
             if name.startswith("m:"):
-                return self.rename(name[2:])
+                name = name[2:]
+            # memory reads through call results:  *{ret:5@Some.0}.0  ->  *{callee(args)@Some.0}.0
+            import re as _re
+
+            def _exp(m):
+                k = m.group(1)
+                if k in self.ret_info:
+                    callee, args = self.ret_info[k]
+                    return self.call_atom(callee, args)
+                return k
+            if "ret:" in name and not getattr(self, "_expanding", False):
+                self._expanding = True
+                try:
+                    name = _re.sub(r"(ret:\d+)", _exp, name)
+                finally:
+                    self._expanding = False
             return self.rename(name)
         if v[0] == "var":
             return "%s::%s" % (v[1].split("::")[-1], v[2])
